@@ -29,7 +29,7 @@ ASSUMPTIONS = ["lanelet polygon = right boundary followed by the reversed left b
                "file routes write with the library's own writers at precision 4; all coordinates are multiples of 0.5"]
 
 ROUTES = ["from_list", "add_asc", "add_desc", "scenario_add", "xml", "pb", "deepcopy", "pickle", "from_network", "scenario_deepcopy", "add_no_rtree",
-          "swap_remove_first", "swap_add_first", "readd_moved", "shared_arrays_then_shift"]
+          "swap_remove_first", "swap_add_first", "readd_moved", "shared_arrays_then_shift", "mixed_dtypes"]
 SHIFT = (16.0, -8.0)
 
 
@@ -123,6 +123,20 @@ def build_network(ids, route, tmpdir):
         net.translate_rotate(np.array(SHIFT), 0.0)
         net._verif_shift = SHIFT
         return net
+    if route == "mixed_dtypes":
+        # boundaries handed over as the arrays a caller gets from integer literals: a polyline whose coordinates are all whole numbers is an
+        # integer-typed array, the others are float arrays (so one lanelet may mix both)
+        import numpy as np
+        from commonroad.scenario.lanelet import Lanelet
+
+        def arr(pts):
+            whole = all(float(c).is_integer() for p_ in pts for c in p_)
+            return np.array([[int(c) for c in p_] for p_ in pts], dtype=int) if whole else np.array(pts, dtype=float)
+        ls = []
+        for i in ids:
+            sp_ = netgeo.lanelet_spec(i)
+            ls.append(Lanelet(arr(sp_["left"]), arr(sp_.get("center") or spec.center_of(sp_["left"], sp_["right"])), arr(sp_["right"]), i))
+        return LaneletNetwork.create_from_lanelet_list(ls)
     if route == "from_network":
         base = LaneletNetwork.create_from_lanelet_list(lanelets)
         return LaneletNetwork.create_from_lanelet_network(base)
